@@ -120,16 +120,28 @@ Section Dynamic.
   (* ---- freeze (optimize_projection = False) ---- *)
   Definition truthy (z : option Z) : bool := match z with Some v => negb (v =? 0) | None => false end.
 
+  (* resolution / shape actually used: the freeze argument wins over the constructor's *)
+  Definition eff_res (d : dyn T) (fres : resarg T) : resarg T := match fres with RNone => init_res (d_res d) | r => r end.
+  Definition eff_hw (d : dyn T) (fshape : option (option Z * option Z)) : option Z * option Z :=
+    match fshape with None => (d_height d, d_width d) | Some s => s end.
+  (* shape = None if None in shape else shape *)
+  Definition eff_shape (d : dyn T) (fshape : option (option Z * option Z)) : option (Z * Z) :=
+    match eff_hw d fshape with (Some h, Some w) => Some (h, w) | _ => None end.
+  (* `if not area_extent or not width or not height` is False: extent and size are taken as given *)
+  Definition explicit_area (d : dyn T) (fshape : option (option Z * option Z)) : option (area T) :=
+    let '(height, width) := eff_hw d fshape in
+    match d_extent d, truthy width && truthy height, width, height with
+    | Some (x0, y0, x1, y1), true, Some w, Some h => Some (mk_area x0 y0 x1 y1 w h)
+    | _, _, _, _ => None
+    end.
+
   Definition freeze (d : dyn T) (fres : resarg T) (fshape : option (option Z * option Z))
              (geographic : bool) (mode : amode) (aou : aou_t T) (pts : list (T * T)) : option (frozen T) :=
-    let resolution := match fres with RNone => init_res (d_res d) | r => r end in
-    let '(height, width) := match fshape with None => (d_height d, d_width d) | Some s => s end in
-    let shape := match height, width with Some h, Some w => Some (h, w) | _, _ => None end in
-    match d_extent d, truthy width && truthy height, width, height with
-    | Some (x0, y0, x1, y1), true, Some w, Some h => Some (mk_frozen (mk_area x0 y0 x1 y1 w h) false)
-    | _, _, _, _ =>
+    match explicit_area d fshape with
+    | Some a => Some (mk_frozen a false)
+    | None =>
         let '(pm, xc, ymin, ymax) := bound_centers geographic mode pts in
-        match compute_domain xc ymin ymax resolution shape aou with
+        match compute_domain xc ymin ymax (eff_res d fres) (eff_shape d fshape) aou with
         | Some ((x0, y0, x1, y1), w, h) => Some (mk_frozen (mk_area x0 y0 x1 y1 w h) pm)
         | None => None
         end
